@@ -251,12 +251,37 @@ func genPageConsts(repo string) (string, error) {
 			}
 			for _, s := range gd.Specs {
 				vs := s.(*ast.ValueSpec)
-				if len(vs.Names) != 1 || vs.Names[0].Name != "predefinedSizes" || len(vs.Values) != 1 {
+				// by shape, not by name: the package-level map from PageSize to a struct of two float64 (width, height)
+				if len(vs.Names) != 1 || len(vs.Values) != 1 {
 					continue
 				}
 				cl, ok := vs.Values[0].(*ast.CompositeLit)
 				if !ok {
-					return "", fmt.Errorf("predefinedSizes is not a composite literal")
+					continue
+				}
+				mt, ok := cl.Type.(*ast.MapType)
+				if !ok || exprString(mt.Key) != "PageSize" {
+					continue
+				}
+				st, ok := mt.Value.(*ast.StructType)
+				if !ok {
+					continue
+				}
+				var dimNames []string
+				for _, f := range st.Fields.List {
+					if exprString(f.Type) != "float64" {
+						dimNames = nil
+						break
+					}
+					for _, n := range f.Names {
+						dimNames = append(dimNames, n.Name)
+					}
+				}
+				if len(dimNames) != 2 {
+					continue
+				}
+				if found {
+					return "", fmt.Errorf("two tables of page sizes")
 				}
 				found = true
 				for _, el := range cl.Elts {
@@ -276,10 +301,22 @@ func genPageConsts(repo string) (string, error) {
 					if !ok || len(vl.Elts) != 2 {
 						return "", fmt.Errorf("predefinedSizes value shape")
 					}
-					var dims []string
-					for _, e := range vl.Elts {
+					dims := make([]string, 2)
+					for k, e := range vl.Elts {
+						pos := k
 						if kv2, ok := e.(*ast.KeyValueExpr); ok {
 							e = kv2.Value
+							pos = -1
+							if kn, ok := kv2.Key.(*ast.Ident); ok {
+								for di, dn := range dimNames {
+									if dn == kn.Name {
+										pos = di
+									}
+								}
+							}
+							if pos < 0 {
+								return "", fmt.Errorf("predefinedSizes value names an unknown field")
+							}
 						}
 						l, ok := floatLit(e)
 						if !ok {
@@ -289,7 +326,10 @@ func genPageConsts(repo string) (string, error) {
 						if !ok {
 							return "", fmt.Errorf("predefinedSizes dimension %s has more than 3 decimals", l)
 						}
-						dims = append(dims, um)
+						dims[pos] = um
+					}
+					if dims[0] == "" || dims[1] == "" {
+						return "", fmt.Errorf("predefinedSizes value does not give both dimensions")
 					}
 					sizes = append(sizes, fmt.Sprintf("(%s, (%s, %s))", coqString(name), dims[0], dims[1]))
 				}
